@@ -915,6 +915,36 @@ func (env *Env) call(n *ast.CallExpr) *SVal {
 					recv = e.load(env.state(), e.addrOf(recv))
 				}
 			} else if recv.K == KIface {
+				if impls := e.w.implementers(rt, m); len(n.Args) == 0 && len(impls) > 0 && len(impls) <= 6 {
+					// closed-world dispatch, as for the code's own calls
+					var res *SVal
+					for i := len(impls) - 1; i >= 0; i-- {
+						T := impls[i]
+						cal := e.w.Prog.LookupMethod(T, m.Pkg(), m.Name())
+						if cal == nil {
+							continue
+						}
+						var rv *SVal
+						if _, isPtr := T.Underlying().(*types.Pointer); isPtr {
+							rv = &SVal{K: KPtr, Typ: T, T: recv.T}
+						} else {
+							rv = e.load(env.state(), e.cellAddr(recv.T, T))
+						}
+						r := e.callPure(cal, []*SVal{rv}, env.state())
+						if res == nil {
+							res = r
+						} else {
+							res = e.iteVal(c.Eq(recv.Tag, c.Int(int64(e.w.typeTag(T)))), r, res)
+						}
+					}
+					if res != nil {
+						return res
+					}
+				}
+				if len(n.Args) == 0 && e.w.isModuleInterface(rt) {
+					// same uninterpreted accessor the code's own calls are modelled with
+					return e.pureGetter(ifaceMethodKey(rt, m), recv, m.Type().(*types.Signature).Results())
+				}
 				env.fail(n, "interface method call in a contract")
 			}
 			args = append(args, recv)
